@@ -571,10 +571,10 @@ def run(ctx):
                 extra.append(("corner", m))
     conts += extra
 
-    modes_all = ["fresh", "permute", "reverse", "upper"]
+    modes_all = ["fresh", "permute", "reverse", "upper", "near"]
     hs_jobs = []
     for idx, (kind, cont) in enumerate(conts):
-        modes = ["fresh", rng.choice(modes_all[1:])] if not thorough else ["fresh", "permute", "reverse", rng.choice(modes_all)]
+        modes = ["fresh", "near", rng.choice(modes_all[1:4])] if not thorough else ["fresh", "permute", "reverse", "near", rng.choice(modes_all)]
         if kind == "fixture":
             modes = modes_all
         for fl in cont["flows"]:
@@ -647,7 +647,7 @@ def run(ctx):
         "group/random routers, enter_flow/webhook/airtime nodes, arbitrary destinations incl. joins, cycles, self-loops, "
         "shape 'loops': several back edges from one node / into one node and texts whose mangled names clash, "
         "dead ends, shared exits, categories without case, default with case; ~15% malformed, ~4% corner) is exported "
-        "with strip_uuids under >= 2 renamings (fresh/permute/reverse/upper) x numbered in {False,True}; an evaluation = "
+        "with strip_uuids under >= 2 renamings (fresh/permute/reverse/upper/near = distinct uuids differing in one block only) x numbered in {False,True}; an evaluation = "
         "one (container, renaming, numbered) byte comparison incl. uuid scan and row-id check (numbered 1..n, readable "
         "unique, every from / go_to target cell names a row), one comparison of the graphs denoted by the readable and "
         "the numbered sheet of a container (same positions referenced), or one hash-seed "
